@@ -21,6 +21,11 @@ CHECKS = {
          'Held on N generated slot fillings over 32 entry points x 3 drivers: every statement that reached the database had the token skeleton of the benign statement, carried only safe quoted identifiers, allow-listed operators/join types, single-definition column types, did not change with values, and left the SQLite sentinel table, table set and column lists as modelled.',
          'Trusts the 120-line SQL lexer and the independent restatement of the safe grammar in c13.go. PostgreSQL/MySQL are checked on statement text only (no server in the sandbox); SQLite statements are executed for real.',
          'DESIGN.md §3 C13'),
+ 'C14': ('fault_enumeration',
+         'all-or-nothing state oracle over enumerated fault positions x fault kinds in the transaction callback and in BulkInsert rows (runtime monitor on real in-memory SQLite, all three drivers\' Transaction code)',
+         'Every enumerated (sequence, failure position, failure kind, driver) case, back-to-back pair, nested transaction and bad-row bulk insert left the tables equal to the before-snapshot (failure) or before+all statements (success), with the handle usable and no connection in use afterwards. The fault space per sequence is finite and is enumerated completely; sequences are bounded in length.',
+         'Trusts SQLite as the storage engine under all three drivers (Postgres/MySQL server behaviour is out of reach), the snapshot comparison, and the 5 s usability deadline. Sequences longer than the bound are not explored.',
+         'DESIGN.md §3 C14'),
 }
 NA = {}
 for p in props:
